@@ -27,6 +27,7 @@ fn dispatch(id: &str, ctx: &Ctx) -> Option<Report> {
         "C06" => mon::c06::run(ctx),
         "C14" => mon::c14::run(ctx),
         "C07" => mon::c07::run(ctx),
+        "C11" => mon::c11::run(ctx),
         _ => return None,
     })
 }
